@@ -262,13 +262,22 @@ def opAC (args obs : List String) : P String := do
     let o ← pOverflow o
     let as ← pList pInt as
     let c ← pRat c
-    let b := quantize x r o c
-    let (la, lb) := if side == "l" then (as, [b]) else ([b], as)
+    -- the constant as a fixed-point object: like x (same format and config) or with inferred sizes and default config
+    let (cf, cr, co) ← if _insize == "best" then
+        match inferFmt none none none none [c] with
+        | some g => pure (g, Rounding.trunc, Overflow.saturate)
+        | none => throw "AC: inference"
+      else pure (x, r, o)
+    let b := quantize cf cr co c
+    -- operand order decides the governing configuration (first operand's)
+    -- `__radd__ = __add__` and `__rmul__ = __mul__`: only the non-commutative operators really swap the operands
+    let swapped := side == "r" && !(op == .add || op == .mul)
+    let (fa, fb, la, lb, gr, go) := if !swapped then (x, cf, as, [b], r, o) else (cf, x, [b], as, cr, co)
     if zeroDiv op lb then return "SKIP"
-    match resultFmt pol op x x with
+    match resultFmt pol op fa fb with
     | none => pure (reply (isExc obs) (isExc obs) ["ERR"])
     | some t =>
-      match arithInto op (meth == "raw") t r o x x la lb with
+      match arithInto op (meth == "raw") t gr go fa fb la lb with
       | none => throw "AC: shapes"
       | some res => pure (functional (showRes t res) obs)
   | _ => throw "AC: arity"
